@@ -144,3 +144,77 @@ func Harness_C10_q_fanout() {
 	}
 	verif.Reach("end")
 }
+
+// Several accessories (a bridge): instance ids repeat across accessories, subscriptions do
+// not. Each connection is subscribed, independently, to the same-shaped characteristic of
+// accessory 1 and of accessory 2; one of the two changes. Exactly the connections
+// subscribed to THAT characteristic are notified, and unsubscribing from one leaves the
+// subscription to the other.
+func Harness_C10_q_two_accessories() {
+	N := 2
+	ctx := hap.NewContextForSecuredDevice(qqDevice{})
+	t := &ipTransport{context: ctx, container: accessory.NewContainer()}
+	var accs [2]*accessory.Accessory
+	var br [2]*characteristic.Brightness
+	for k := 0; k < 2; k++ {
+		accs[k] = accessory.New(accessory.Info{Name: "a"}, accessory.TypeLightbulb)
+		svc := service.New("43")
+		br[k] = characteristic.NewBrightness()
+		svc.AddCharacteristic(br[k].Characteristic)
+		accs[k].AddService(svc)
+		t.addAccessory(accs[k])
+	}
+	verif.Assert(accs[0].ID != accs[1].ID, "accessory-ids-differ")
+	verif.Assert(br[0].Characteristic.ID == br[1].Characteristic.ID, "instance-ids-repeat-across-accessories")
+	raw := make([]*qqConn, N)
+	sub := make([][2]bool, N)
+	for i := 0; i < N; i++ {
+		raw[i] = &qqConn{addr: qqAddr("10.0.0." + string(rune('1'+i)) + ":5000")}
+		hap.NewConnection(raw[i], ctx)
+		s := ctx.GetSessionForConnection(raw[i])
+		for k := 0; k < 2; k++ {
+			switch verif.Choice("sub"+string(rune('0'+i))+string(rune('a'+k)), 3) {
+			case 1:
+				s.Subscribe(br[k].Characteristic)
+				sub[i][k] = true
+			case 2: // subscribed then unsubscribed (after the other one was set up)
+				s.Subscribe(br[k].Characteristic)
+				s.Unsubscribe(br[k].Characteristic)
+			}
+		}
+		// order effect: unsubscribing from accessory 2 after subscribing to accessory 1
+		if verif.Choice("late-unsub"+string(rune('0'+i)), 2) == 1 {
+			s.Unsubscribe(br[1].Characteristic)
+			sub[i][1] = false
+		}
+	}
+	which := verif.Choice("changed-accessory", 2)
+	nv := int(verif.U8("new"))
+	verif.Assume(nv <= 100 && nv != br[which].GetValue())
+	br[which].SetValue(nv)
+	for i := 0; i < N; i++ {
+		msgs := 0
+		var joined []byte
+		for _, wr := range raw[i].written {
+			if bytes.HasPrefix(wr, []byte("EVENT/1.0 ")) {
+				msgs++
+			}
+			joined = append(joined, wr...)
+		}
+		want := 0
+		if sub[i][which] {
+			want = 1
+		}
+		verif.Assert(msgs == want, "event-only-for-the-subscribed-accessory")
+		if want == 1 && msgs == 1 {
+			_, doc := qqEventBody(joined)
+			arr, _ := doc["characteristics"].([]interface{})
+			if len(arr) == 1 {
+				e, _ := arr[0].(map[string]interface{})
+				aid, _ := e["aid"].(float64)
+				verif.Assert(aid == float64(accs[which].ID), "event-names-the-changed-accessory")
+			}
+		}
+	}
+	verif.Reach("end")
+}
